@@ -376,6 +376,45 @@ theorem C19_cli_xml_document (ser : Ser) (v : J) (doc : Bytes) (h : document ser
   cases h
   exact ⟨rfl, by simpa using hv⟩
 
+/-- XML: for EVERY Unicode scalar value of a server string, what the converter writes for it is made of XML characters only:
+the character itself where XML 1.1 allows it literally, one of the five named references, or a numeric reference to an
+XML character (the controls); U+0000, U+FFFE and U+FFFF — no XML characters, not even as references — become U+FFFD. -/
+theorem C19_cli_xml_only_xml_characters (isAttr : Bool) (c : Nat) (hc : isScalar c = true) :
+    (∃ c', xmlLiteralOk c' = true ∧ escapeScalar isAttr c = utf8EncodeChar c')
+    ∨ escapeScalar isAttr c ∈ [asciiBytes "&amp;", asciiBytes "&lt;", asciiBytes "&gt;", asciiBytes "&quot;", asciiBytes "&apos;"]
+    ∨ (xmlCharOk c = true ∧ escapeScalar isAttr c = asciiBytes "&#x" ++ hexUpper c ++ asciiBytes ";") := by
+  have hs := (isScalar_iff c).mp hc
+  unfold escapeScalar
+  split; · exact Or.inr (Or.inl (by simp))
+  split; · exact Or.inr (Or.inl (by simp))
+  split; · exact Or.inr (Or.inl (by simp))
+  split; · exact Or.inr (Or.inl (by simp))
+  split; · exact Or.inr (Or.inl (by simp))
+  rename_i h38 h60 h62 h34 h39
+  simp only [beq_iff_eq] at h38 h60 h62 h34 h39
+  split; · exact Or.inl ⟨0xFFFD, by decide, rfl⟩
+  rename_i hnon
+  simp only [Bool.or_eq_true, beq_iff_eq, not_or] at hnon
+  split
+  · rename_i htl
+    simp only [Bool.and_eq_true, Bool.or_eq_true, beq_iff_eq] at htl
+    refine Or.inl ⟨c, ?_, rfl⟩
+    rcases htl.1 with rfl | rfl <;> decide
+  split
+  · rename_i _ hctl
+    simp only [isControl, Bool.or_eq_true, Bool.and_eq_true, decide_eq_true_eq] at hctl
+    refine Or.inr (Or.inr ⟨?_, rfl⟩)
+    simp only [xmlCharOk, Bool.or_eq_true, Bool.and_eq_true, decide_eq_true_eq]
+    omega
+  · rename_i _ hctl
+    simp only [isControl, Bool.or_eq_true, Bool.and_eq_true, decide_eq_true_eq, not_or, not_and, Nat.not_lt] at hctl
+    refine Or.inl ⟨c, ?_, rfl⟩
+    simp only [xmlLiteralOk, Bool.or_eq_true, Bool.and_eq_true, decide_eq_true_eq, beq_iff_eq]
+    omega
+
+example : escapeScalar false 0xFFFF = [0xEF, 0xBF, 0xBD] ∧ escapeScalar true 0xFFFE = [0xEF, 0xBF, 0xBD] ∧ escapeScalar false 0xFFFD = [0xEF, 0xBF, 0xBD]
+    ∧ escapeScalar false 0x10FFFF = [0xF4, 0x8F, 0xBF, 0xBF] ∧ escapeScalar false 0x85 = asciiBytes "&#x85;" := by decide
+
 /-- GENERIC MODE PRINTS EXACTLY THE COMMON VIEW: the value is the object of the ten members of `CommonResponseJson`, in
 that order, each the value of the type's accessor (the generated tables of C15: `C15_json_is_the_view`), the players
 as the list of their own `as_json()`. -/
